@@ -32,4 +32,5 @@ def main():
         emit((out))
 
 
-main()
+if __name__ == "__main__":
+    main()
